@@ -29,6 +29,33 @@ PLAN = {
             "not_decided": PARSER_NOT_DECIDED},
     "C12": {"harness": ["parser_diff"], "harness_checks": {"parser_diff": ["limits", "segm"]}, "trusted_base": PARSER_TRUSTED, "assumptions": COMMON_ABSTRACTIONS,
             "not_decided": PARSER_NOT_DECIDED + ["buffer bounds for chunk-size lines and trailer blocks (no cap in the code)"]},
+    "C02": {"harness": ["response_diff"], "harness_checks": {"response_diff": ["c02"]},
+            "trusted_base": ["socket sink model contracts/sockmodel.py: sendall/send append exactly the given bytes to the ghost wire or raise OSError (then unusable); sendfile(f, offset, count) appends f[offset:offset+count)",
+                             "application model abstract:App.__call__ (PEP 3333 well-behaved: calls start_response before returning its iterable, numeric status code); its status / headers / chunk sequence are arbitrary symbolic values",
+                             "request-side persistence abstract:ReqView.should_close is a fixed boolean (Message.should_close is verified separately)",
+                             "util.http_date returns text without CR/LF/NUL",
+                             "rope comparison is structural (sound, incomplete): a differently decomposed but equal wire fails to verify"],
+            "assumptions": COMMON_ABSTRACTIONS + ["TLS (cfg.is_ssl) not modelled", "gevent pywsgi / eventlet / gevent socket classes are outside (library code)"],
+            "not_decided": ["the decoded body of a CHUNKED response equals the application output: proved per write() call (exactly one well-formed chunk carrying exactly the bytes, never an empty chunk, one terminator in close()); the whole-response statement is the induction over calls (recorded in DESIGN), checked end-to-end only by the bounded stand-in",
+                            "applications that call start_response lazily from inside their iterator"]},
+    "C09": {"harness": ["response_diff"], "harness_checks": {"response_diff": ["c09"]},
+            "trusted_base": ["socket sink model", "util.http_date returns text without CR/LF/NUL", "regex character classes are compiled from the live pattern objects (TOKEN_RE, HEADER_VALUE_RE)"],
+            "assumptions": COMMON_ABSTRACTIONS, "not_decided": []},
+    "C05": {"harness": ["conn_diff"],
+            "trusted_base": ["parser model contracts/workers.py:ParserModel (the parser's own contracts are C01/C06/C07): next() yields a request or raises any parser exception / StopIteration / OSError",
+                             "socket sink model; html.escape / textwrap.dedent total", "application model abstract:App.__call__"],
+            "assumptions": COMMON_ABSTRACTIONS + ["TLS not modelled (ssl.SSLError paths)", "asynchronous exceptions (KeyboardInterrupt at arbitrary points) not modelled"],
+            "not_decided": ["gevent / eventlet worker subclasses", "content of the HTML error body (only head, Content-Length and single-line status are under contract)"]},
+    "C18": {"harness": [],
+            "trusted_base": ["application model", "random.randint(a, b) returns an int in [a, b]"],
+            "assumptions": COMMON_ABSTRACTIONS,
+            "not_decided": ["what clients observe during recycling (listen backlog)", "self.nr += 1 races between pool threads (GIL assumption)", "respawn by the master is C03"]},
+    "C19": {"harness": ["response_diff"], "harness_checks": {"response_diff": ["c19"]},
+            "trusted_base": ["Logger model: access() appends one record carrying resp.status / resp.sent at the time of the call; other log levels are skipped",
+                             "application model"],
+            "assumptions": COMMON_ABSTRACTIONS,
+            "not_decided": ["single-line property of the formatted record (SafeAtoms / Logger.atoms / _get_user and logging's own formatting): not under contract",
+                            "gevent pywsgi logging path"]},
     "C07": {
         "harness": ["body_diff"],
         "trusted_base": PARSER_TRUSTED + [
